@@ -15,7 +15,8 @@ HERE = os.path.dirname(os.path.dirname(os.path.abspath(__file__)))
 
 def parse_logs():
     res = {}
-    for log in sorted(glob.glob('/tmp/mut/eval_round*.log')) + sorted(glob.glob('/tmp/mut/retest*.log')):
+    root = os.environ.get('MUTROOT', '/tmp/mut')
+    for log in sorted(glob.glob(root + '/eval_round*.log')) + sorted(glob.glob(root + '/retest*.log')):
         cur = None
         for line in open(log, errors='replace'):
             m = re.match(r'== (C\d\d)/(\d): (.*)', line)
@@ -51,7 +52,7 @@ def main():
     out_root = os.path.join(HERE, 'seeded')
     kept = []
     for (pid, k), r in sorted(logs.items()):
-        src = '/tmp/mut/%s/out/%s' % (pid, k)
+        src = '%s/%s/out/%s' % (os.environ.get('MUTROOT', '/tmp/mut'), pid, k)
         if not os.path.exists(os.path.join(src, 'patch.diff')):
             continue
         confirmed = r.get('demo_clean') == 0 and r.get('demo_patched', 0) != 0 and \
@@ -59,7 +60,7 @@ def main():
         if not confirmed:
             print('NOT CONFIRMED', pid, k, r)
             continue
-        dst = os.path.join(out_root, '%s-%s' % (pid, k))
+        dst = os.path.join(out_root, '%s-%s%s' % (pid, os.environ.get('MUTTAG', ''), k))
         os.makedirs(dst, exist_ok=True)
         for fn in ('patch.diff', 'demo.py', 'notes.md'):
             shutil.copy(os.path.join(src, fn), os.path.join(dst, fn))
